@@ -1284,7 +1284,7 @@ Theorem pbo_entry_readable : forall fsk prefix names t nm L,
   fsk pbop = KFile -> eqs (extension pbop) pbo_ext = true ->
   In nm names ->
   pcomps (entry_path repaired prefix nm) = L -> L <> [] -> Forall pseg L ->
-  relative_path (lexnorm (SL :: vfull_of L)) = entry_path repaired prefix nm ->
+  pbo_wanted (vfull_of L) = entry_path repaired prefix nm ->
   trim (cleanse (vfull_of L)) = vfull_of L ->
   get_info repaired fsk t (vfull_of L) [] [] = Ok (Some (pbop, vfull_of L)) /\
   exists j nm', read_file repaired fsk t pbop (vfull_of L) = Ok (RdPbo (lexnorm pbop) j) /\
